@@ -198,6 +198,7 @@ REQUIRED_PROBES = {
     "C16": ["reach_probes.planted_reached", "reach_probes.planted_pruned", "reach_probes.position_g",
             "reach_probes.position_s", "reach_probes.position_f", "reach_probes.position_p-entry",
             "reach_probes.family_multi_part", "reach_probes.family_invalid_inside_package",
+            "reach_probes.planted_8_or_more", "reach_probes.planted_at_every_position",
             "fault_counts.F5_invalid_expression"],
 }
 
